@@ -84,9 +84,10 @@ def expected(tree, host):
             b = ev(t[2])
             return a + b
         if k == 'var':
-            events.append(('var', t[1]))
-            v = host['vars'].get(t[1], {'TRUE': True, 'FALSE': False, 'NULL': None}.get(t[1], NOT_FOUND))
-            v = last_non_none(host.get('varset', {}).get(t[1], []), v)
+            n = t[1].split('.')[0]          # a dotted sequence a.b.c is a reference to its first name: one event
+            events.append(('var', n))
+            v = host['vars'].get(n, {'TRUE': True, 'FALSE': False, 'NULL': None}.get(n, NOT_FOUND))
+            v = last_non_none(host.get('varset', {}).get(n, []), v)
             if v is NOT_FOUND:
                 raise Stop('NAME')
             return v
@@ -173,13 +174,20 @@ class Gen(object):
         self.const = [n for n, k in host['funs'].items() if k[0] in ('const', 'raise_xl')]
         self.boom = [n for n, k in host['funs'].items() if k == 'raise_py']
 
+    def dots(self):
+        """now and then a dotted variable sequence (name.name...): still one reference, to the first name"""
+        rng = self.rng
+        if rng.random() < 0.85:
+            return ''
+        return ''.join('.' + rng.choice(['b', 'total', 'x_y', 'alpha', 'nosuch', 'Q']) for _ in range(rng.randint(1, 2)))
+
     def num(self, d):
         rng = self.rng
         k = rng.randrange(8)
         if d <= 0 or k < 2:
             return ('num', rng.choice([0, 1, 2, 3, 5, 7, 11, 13, 10 ** 20 + 7]))
         if k == 2 and self.int_vars:
-            return ('var', rng.choice(self.int_vars))
+            return ('var', rng.choice(self.int_vars) + self.dots())
         if k == 3:
             return ('neg', self.atomic_num(d - 1))
         if k == 4:
@@ -200,7 +208,7 @@ class Gen(object):
         if k == 0:
             return self.num(d)
         if k == 1:
-            return ('var', rng.choice(self.any_vars))
+            return ('var', rng.choice(self.any_vars) + self.dots())
         if k == 2:
             return ('cell', rng.choice(list(self.host['cells']) + [rand_label(rng)]).swapcase() if rng.random() < 0.3
                     else rng.choice(list(self.host['cells']) + [rand_label(rng)]))
